@@ -21,7 +21,10 @@ N_SEARCH = {"quick": 1, "thorough": 2}
 SHARD = 40
 HAS_MODEL_OUT = True
 RULE = ("generated data files (all record types, few names so that many values share a key, duplicate lines, "
-        "subnet lines in several maps, noise lines) compiled by the real compilers under settings drawn from the grid "
+        "subnet lines in several maps, noise lines; in every other file lines whose last field ends in white space - blank, "
+        "TAB, CR, VT, FF, 0x85, 0xA0, NBSP, NEL, EM SPACE, IDEOGRAPHIC SPACE - after text and generic payloads and after numeric "
+        "last fields; white-space-only lines; files whose only bad line is a record, a comment or white space with a TAB, VT, "
+        "FF, CR or NBSP in front; the Coq model reads the raw file bytes with its own model of the line reader) compiled by the real compilers under settings drawn from the grid "
         "workers 1/2/16 x (builder | batches with size 1/7/100000 x parallel 0/1/4) x v1/v2 keys, and CDB with "
         "workers 1/2/16; every database is read back completely and compared as key -> multiset of values with the "
         "implementation's own codec called line by line in one goroutine; a file with a rejected line must fail under "
@@ -38,7 +41,7 @@ TRUSTED_BASE = [
     "sort.Slice returns a sorted permutation (hypothesis sort_ok; exercised through the hook on every bucket case)",
     "ExecuteBatch per key = old values, additions, deletions: lemma execute_batch_perkey of the C15 development (Proofs/Batch.v)",
     "goroutine schedules of the parser workers and batch writers are represented by quantified permutations (is_stream, order); the mutex rdb.writeMutex serialising ExecuteBatch is trusted",
-    "the line discipline of dnsdata.parse (trim leading spaces, skip lines shorter than 2 bytes and comment lines) is replicated in the harness, not modelled",
+    "the line reader of dnsdata.parse is modelled (Model/LineReader.v: bufio.ScanLines, TrimLeft blanks, skip lines shorter than 2 bytes and comment lines) except for the scanner's 64 KiB token limit; the Go-side comparison of large files uses the harness's replica of it",
 ]
 ASSUMPTIONS = [
     "values are shorter than 2^32 bytes (kvs_ok)",
@@ -90,10 +93,11 @@ def to_coq(c):
         return "CVerdict []"
     if not c["small"]:
         return "CVerdict %s" % clist([cbool(v) for v in verdicts(c)])
-    lines = clist(["(Some %s)" % clist([ckv(p) for p in (l["recs"] or [])]) if l["ok"] else "None" for l in (c.get("lines") or [])])
+    table = clist([cpair(cbytes(t["line"]), "(Some %s)" % clist([ckv(p) for p in (t["recs"] or [])]) if t["ok"] else "None")
+                   for t in (c.get("table") or [])])
     runs = clist(["(mkrun %s %s %s)" % (cmode(r), cbool(r["ok"]), cdump(r.get("dump"))) for r in c["runs"]])
-    return "CCompile %s %s %s %d%%nat %s" % (lines, clist([ckv(p) for p in (c.get("acc") or [])]),
-                                            clist([ckv(p) for p in (c.get("feat") or [])]), c["ncpu"], runs)
+    return "CCompile %s %s %d %s %s %d%%nat %s" % (cbytes(c["file"]), table, c["nlines"], clist([ckv(p) for p in (c.get("acc") or [])]),
+                                                 clist([ckv(p) for p in (c.get("feat") or [])]), c["ncpu"], runs)
 
 
 def nontrivial(c):
